@@ -396,3 +396,58 @@ pub fn package_paths(src: &str) -> Vec<(String, String)> {
     }
     out
 }
+
+// ------------------------------------------------------------------------------------------------
+// documents whose encoding has to report a conflict between imports
+
+/// (name, version-free key) pool: one plain name and one interface on two compatible and one
+/// incompatible version
+const CONFLICT_NAMES: &[&str] = &["foo", "test:s/m@1.0.0", "test:s/m@1.1.0", "test:s/m@1.10.0", "test:s/m@2.0.0"];
+
+/// (WAT type of an import, the same type written in a document)
+const CONFLICT_TYPES: &[(&str, &str)] = &[
+    ("(instance (export \"a\" (func)))", "interface { a: func(); }"),
+    ("(instance (export \"a\" (func (param \"x\" u32) (result u32))))", "interface { a: func(x: u32) -> u32; }"),
+    ("(instance (export \"b\" (func)))", "interface { b: func(); }"),
+    ("(func)", "func()"),
+    ("(func (param \"x\" u32))", "func(x: u32)"),
+];
+
+/// Two packages that each leave one import unsatisfied and a document that instantiates them
+/// implicitly and imports, explicitly, names on the same name / semver track with the same or
+/// another type — in every order.  Whatever conflict the encoder finds (explicit against implicit,
+/// implicit against implicit, explicit against explicit, a conflict inside a merge) has to come
+/// back as a diagnostic of `Resolution::encode`.
+/// Returns (document, [(package name, WAT)]).
+pub fn gen_conflict(r: &mut Rng) -> (String, Vec<(String, String)>) {
+    let mut pkgs = Vec::new();
+    let mut stmts: Vec<String> = Vec::new();
+    // a compatible pair of names most of the time
+    let names: Vec<&str> = if r.chance(2, 3) {
+        let v: Vec<&str> = CONFLICT_NAMES.iter().copied().filter(|n| n.starts_with("test:s/m@1.")).collect();
+        v
+    } else {
+        CONFLICT_NAMES.to_vec()
+    };
+    let n_pk = 1 + r.below(2);
+    for k in 0..n_pk {
+        let name = *r.pick(&names);
+        let (wat_ty, _) = *r.pick(CONFLICT_TYPES);
+        pkgs.push((format!("p:c{k}"), format!("(component (import \"{}\" {}))", name, wat_ty)));
+        for j in 0..(1 + r.below(2)) {
+            stmts.push(format!("let l{k}x{j} = new p:c{k} {{ ... }};"));
+        }
+    }
+    for k in 0..r.below(3) {
+        let name = *r.pick(&names);
+        let (_, doc_ty) = *r.pick(CONFLICT_TYPES);
+        stmts.push(format!("import m{k} as \"{}\": {};", name, doc_ty));
+    }
+    r.shuffle(&mut stmts);
+    let mut doc = String::from("package test:doc;\n");
+    for s in stmts {
+        doc.push_str(&s);
+        doc.push('\n');
+    }
+    (doc, pkgs)
+}
